@@ -97,6 +97,7 @@ def run(prop, tier):
     labels = sorted(p.label for p in paths)
     structural.append(("xs-iteration-shape", "one iteration of the external-sampling loop either continues or breaks after both passes", labels == ["break", "continue"]))
     ctx = smt.Ctx({}, {})
+    ctx.sym_sorts.update({f"{name}:_5": "F", f"{name}:_4": "Int"})
     brk_conds, cont_conds = [], []
     for p in paths:
         calls = p.calls
@@ -212,6 +213,67 @@ def run(prop, tier):
             res["infra"].append(f"{vm}: loop header not recognised")
     else:
         res["infra"].append(f"{vm} not found in MIR")
+
+    # ---------------------------------------------------------------- Game::solve dispatch (acyclic)
+    gs = next((k for k in fns if re.fullmatch(r"<impl at src/lib\.rs:[0-9:]+ [0-9:]+>::solve", k)), None)
+    if gs:
+        f4 = mir.Fn("Game::solve", fns[gs])
+        ex4 = mir.Executor(f4)
+        ps4 = ex4.run()
+        if ex4.unknown or len(ps4) < 4:
+            res["infra"].append(f"Game::solve: {sorted(set(ex4.unknown))[:3]} / {len(ps4)} paths")
+        else:
+            enum_sm = ["Full", "Sampled", "External"]
+            src = open(f"{REPO}/src/lib.rs").read()
+            em = re.search(r"pub enum SolveMethod \{(.*?)\n\}", src, re.S)
+            if em:
+                enum_sm = re.findall(r"^\s*(\w+),?\s*$", re.sub(r"///.*", "", em.group(1)), re.M)
+            want = {("Full", True): "solve_full_single", ("Sampled", True): "solve_sampled_single", ("External", True): "solve_external_single",
+                    ("Full", False): "solve_full_multi", ("Sampled", False): "solve_sampled_multi", ("External", False): "solve_external_multi"}
+            c4 = smt.Ctx({}, {})
+            c4.sym_sorts.update({"Game::solve:_3": "Int", "Game::solve:_4": "F", "Game::solve:_5": "Int"})
+            ok_one_thread_ok, ok_overflow = True, False
+            for p4 in ps4:
+                solver_calls = [c for c in p4.calls if re.match(r"solve_(full|sampled|external)_(single|multi)::<", c[0])]
+                eqs = [c for c in p4.calls if c[0] == "<NonZero<usize> as PartialEq>::eq"]
+                conds = [c4.cond(s, d_) for s, d_ in p4.cond]
+                is_single = None
+                for s_, d_ in p4.cond:
+                    if s_[0] == "call" and s_[1] == "<NonZero<usize> as PartialEq>::eq":
+                        is_single = not (d_[0] == "eq" and d_[1] == "0")
+                errs = [c for c in p4.calls if "from_residual" in c[0]]
+                if len(solver_calls) == 1:
+                    sc = solver_calls[0]
+                    called = sc[0].split("::<")[0]
+                    codes = {v: i for i, v in enumerate(sorted(set(want.values())))}
+                    m_t, _ = c4.tr(("discr", ("sym", "Game::solve:_2")))
+                    spec = "(- 1)"
+                    for i, v in reversed(list(enumerate(enum_sm))):
+                        spec = f"(ite (= {m_t} {i}) {codes[want[(v, bool(is_single))]]} {spec})"
+                    queries.append(("gs-dispatch", "Game::solve runs the solver named by the method, the single-thread variant exactly when one thread is requested (the unsampled method never reaches a sampling solver)", c4,
+                                    conds + [f"(not (= {codes.get(called, -2)} {spec}))"]))
+                    a = sc[1]
+                    tr4 = lambda x: c4.tr(x)[0]  # noqa: E731
+                    both("gs-budget", "the iteration budget is passed unchanged", c4, tr4(a[3]), tr4(("sym", "Game::solve:_3")))
+                    both("gs-threshold", "the regret threshold is passed unchanged", c4, c4.tr(a[4], "F")[0], c4.tr(("sym", "Game::solve:_4"), "F")[0])
+                    dflt = [c for c in p4.calls if "unwrap_or_default" in c[0]]
+                    structural.append(("gs-default-params", "omitted parameters mean RegretParams::default(): the solver receives unwrap_or_default(params)",
+                                       len(dflt) == 1 and a[-1] == dflt[0][2] and dflt[0][1][0] == ("sym", "Game::solve:_6")))
+                    infos = a[2]
+                    structural.append(("gs-player-order", "the solver receives [player one's infosets, player two's infosets] of this game, its root and its chance infosets",
+                                       infos[0] == "tuple" and "0)" in repr(infos[1][0])[-12:] and "1)" in repr(infos[1][1])[-12:] and repr(infos[1][0]) != repr(infos[1][1])))
+                    if is_single:
+                        ok_one_thread_ok &= not errs and "checked_mul" not in " ".join(c[0] for c in p4.calls)
+                elif not solver_calls:
+                    # the only way out without solving: the task target 3 x threads overflowed
+                    names = " ".join(c[0] for c in p4.calls)
+                    ok_overflow |= ("checked_mul" in names and "ok_or" in names and bool(errs) and is_single is False and "ThreadOverflow" in repr(p4.calls))
+                    if is_single:
+                        ok_one_thread_ok = False
+            structural.append(("gs-one-thread-never-errors", "with one thread no error path exists: no pool is built and the task target is not computed", ok_one_thread_ok))
+            structural.append(("gs-thread-overflow", "3 x threads overflowing usize is reported as SolveError::ThreadOverflow before any solver runs", ok_overflow))
+    else:
+        res["infra"].append("Game::solve not found in MIR")
 
     # ---------------------------------------------------------------- discharge
     results = smt.solve_batch(queries, "z3") if queries else {"verdicts": [], "time": 0.0}
